@@ -520,12 +520,30 @@ def run(ctx: Ctx, rs: RuleSet, tier: str):
           'enclosing frame, through its parameter) holds for the whole '
           'resolution',
   }
+  # the reference-replacing callback of resolve_diff_references, whatever it
+  # is called and wherever it lives (closure, lifted function, bound method)
+  owner = ctx.func(f'{D}.resolve_diff_references')
+  cb_scopes, cb_classes = set(), set()
+  for cb in ctx.p.callbacks(owner):
+    base = getattr(cb, '_base', None) or cb
+    cb_scopes |= {cb.qualname, base.qualname}
+    if getattr(base, 'cls', None) is not None:
+      cb_classes.add(base.cls.qualname)
+  # ... or the methods of a helper object the function makes for this call
+  for c_ in ctx.calls(owner):
+    cq_ = ctx.p.resolve(c_.func, owner)
+    if cq_ in ctx.p.classes and ctx.p.classes[cq_].module is owner.module:
+      cb_classes.add(cq_)
+  the_reason = next(iter(reasons.values()))
   for s in idmemo.scan_module(ctx, D):
     loc = ctx.loc(s.scope, s.node)
+    in_cb = s.scope.qualname in cb_scopes or (
+        getattr(s.scope, 'cls', None) is not None and
+        s.scope.cls.qualname in cb_classes)
     if s.pinned:
       rs.ok(rule, s.key, s.how, loc)
-    elif (s.scope.qualname, s.table) in reasons:
-      r = reasons[(s.scope.qualname, s.table)]
+    elif (s.scope.qualname, s.table) in reasons or in_cb:
+      r = reasons.get((s.scope.qualname, s.table), the_reason)
       # side condition: the memoised object is a parameter of the callback
       ok = unparse(s.x) in s.scope.params
       rs.check(ok, rule, s.key, 'accepted: ' + r, loc)
